@@ -357,8 +357,12 @@ func selfTestOPC() error {
 		want string
 	}
 	bads := []bad{
-		{"ill-formed part", func(m map[string]string) { m["word/document.xml"] = strings.Replace(m["word/document.xml"], "</w:body>", "", 1) }, (*opc.Package).CheckC01, "xml-wellformed"},
-		{"unbound prefix", func(m map[string]string) { m["word/document.xml"] = strings.Replace(m["word/document.xml"], "<w:body>", "<w:body><q:x/>", 1) }, (*opc.Package).CheckC01, "ns-unbound"},
+		{"ill-formed part", func(m map[string]string) {
+			m["word/document.xml"] = strings.Replace(m["word/document.xml"], "</w:body>", "", 1)
+		}, (*opc.Package).CheckC01, "xml-wellformed"},
+		{"unbound prefix", func(m map[string]string) {
+			m["word/document.xml"] = strings.Replace(m["word/document.xml"], "<w:body>", "<w:body><q:x/>", 1)
+		}, (*opc.Package).CheckC01, "ns-unbound"},
 		{"missing content type", func(m map[string]string) { m["word/media/image1.jpg"] = "x" }, (*opc.Package).CheckC01, "content-types/no-content-type"},
 		{"dangling relationship", func(m map[string]string) {
 			m["word/_rels/document.xml.rels"] = strings.Replace(m["word/_rels/document.xml.rels"], "</Relationships>", `<Relationship Id="rId9" Type="http://schemas.openxmlformats.org/officeDocument/2006/relationships/image" Target="media/none.png"/></Relationships>`, 1)
